@@ -1778,6 +1778,18 @@ func (s *ScopedKeyManager) newAccountWatchingOnly(ns walletdb.ReadWriteBucket,
 	account uint32, name string, pubKey *hdkeychain.ExtendedKey,
 	masterKeyFingerprint uint32, addrSchema *ScopeAddrSchema) error {
 
+	// A watch-only account is stored encrypted with the public crypto key
+	// only, so make sure no private key material is ever persisted for
+	// it, even if the caller handed us an extended private key.
+	if pubKey.IsPrivate() {
+		neutered, err := pubKey.Neuter()
+		if err != nil {
+			str := "failed to convert account key to a public key"
+			return managerError(ErrKeyChain, str, err)
+		}
+		pubKey = neutered
+	}
+
 	// Validate the account name.
 	if err := ValidateAccountName(name); err != nil {
 		return err
